@@ -240,7 +240,7 @@ Proof.
   { eapply (IHhi genv en o1 ce p1 chi p2 fn fe cf _ ret locs (mval_of vlo :: st) cs g); try eassumption; [inf|].
     eapply pool_le_trans; [exact P3|exact Hpool]. }
   intros vhi o2 m _ [-> Hvhi]; cbv iota beta.
-  destruct vlo as [a|?| |?]; rt. destruct vhi as [b|?| |?]; rt.
+  destruct vlo as [a|?| |?|?]; rt. destruct vhi as [b|?| |?|?]; rt.
   cbn [val_ok mval_of] in *.
   (* range: end, i, empty array *)
   unfold rng_init in Hinit.
